@@ -52,7 +52,10 @@ CHECKS = {
     "C02": dict(
         parts=[dict(pkg="table", run="^TestC02$",
                     quick=dict(shards=4, checks=150, timeout=300),
-                    thorough=dict(shards=16, checks=2500, timeout=1800))],
+                    thorough=dict(shards=16, checks=2500, timeout=1800)),
+               dict(pkg="table", run="^TestC02$",
+                    quick=dict(shards=2, checks=150, timeout=300, gomaxprocs=3),
+                    thorough=dict(shards=8, checks=2500, timeout=1800, gomaxprocs=3))],
         rule="cases = generated histories with explicit seat layouts (gaps, sitting-out and busted players between participants, dead button / dead small blind after departures and busts), 2..10 participants, both rules, newcomers arriving and non-participants leaving while a hand runs; oracle: the hand's list names every dealt-in player once, is a rotation of the clockwise seat order, entry i starts with M[i]'s bankroll at open, the mapping is unchanged in every later snapshot, every accepted action was applied by the backend to the entry of its submitter, entry i's result is credited to M[i] only; non-trivial = a hand with a gap and (dead dealer | dead SB | sitting-out player between participants) or a membership change during the hand; distinct = distinct abstract traces",
         mandatory=dict(quick=['dead_dealer', 'dead_sb', 'gap', 'sitout_between', 'inhand_reserve', 'inhand_leave', 'participants_2', 'participants_6']),
         assumptions=ASSUME_COMMON,
@@ -132,7 +135,7 @@ CHECKS = {
                     quick=dict(shards=4, checks=150, timeout=300),
                     thorough=dict(shards=16, checks=2500, timeout=1800))],
         rule='cases = generated histories with a drawn blind schedule: UpdateBlind between hands (before the open trigger), at in-hand decision points, breaks (-1) between hands and during hands, resume from a break, tables created on a break; oracle: options handed to the backend, hand meta and published game blind level = values in force when the harness released the open trigger; ante/blinds actually charged = min(amount, stack) per position; mid-hand updates change only later hands; no open and no button movement on a break; pause after a hand whose level became a break; non-trivial = a blind update or a break; distinct = distinct abstract traces',
-        mandatory=dict(quick=['update_inhand', 'update_between', 'update_same_level_number', 'break_after_hand', 'break_no_open', 'resume_from_break', 'created_on_break', 'ante_checked', 'blinds_checked']),
+        mandatory=dict(quick=['update_inhand', 'update_between', 'update_same_level_number', 'update_while_hand_is_created', 'update_in_first_snapshot_callback', 'break_after_hand', 'break_no_open', 'resume_from_break', 'created_on_break', 'ante_checked', 'blinds_checked']),
         assumptions=ASSUME_COMMON,
     ),
     "C13": dict(
@@ -146,7 +149,12 @@ CHECKS = {
     "C14": dict(
         parts=[dict(pkg="table", run="^TestC14$",
                     quick=dict(shards=4, checks=150, timeout=300),
-                    thorough=dict(shards=16, checks=2500, timeout=1800))],
+                    thorough=dict(shards=16, checks=2500, timeout=1800)),
+               # few scheduler threads: the engine's updater goroutine and the caller compete for
+               # them, which is what exposed the fold-round race of the pinned tree (DESIGN 9)
+               dict(pkg="table", run="^TestC14$",
+                    quick=dict(shards=2, checks=200, timeout=300, gomaxprocs=3),
+                    thorough=dict(shards=8, checks=2500, timeout=1800, gomaxprocs=3))],
         rule='cases = generated hands with raise-heavy temperaments; oracle: at settlement ActionTimes/CallTimes/CheckTimes = accepted submissions of that kind, raises <= actions, fold flag and round exactly for accepted folds, every did-flag implies its chance flag and at most one 3-bet holder at every published snapshot, statistics zero at the fence and at the next open; non-trivial = a hand with a raise and a fold or any did-flag set; distinct = distinct abstract traces',
         mandatory=dict(quick=['did_3b', 'did_showdown', 'participants_2', 'participants_5']),
         assumptions=ASSUME_COMMON,
@@ -182,7 +190,7 @@ CHECKS = {
                  thorough=dict(shards=4, checks=1500, timeout=1800, gomaxprocs=2)),
         ],
         rule="generated concurrent workloads released by a barrier, N goroutines 2..16 (quick) / 2..48 (thorough), at several GOMAXPROCS values: (a) seat-manager AssignSeats/RandomAssignSeats/RemoveSeats/JoinPlayers/UpdatePlayerHasChips bursts with colliding seats; (b) table PlayerReserve (fixed colliding seats, random seats up to and beyond capacity, re-buys) / PlayersLeave / UpdateTablePlayers bursts on a table before its first hand; (c) at a drawn turn of a real hand every player at the table and strangers submit an action at once; oracle: (a)(b) the history is linearizable with respect to the sequential seat model (porcupine, nondeterministic for random seats) and the C03 consistency predicate holds afterwards; (c) accepted submissions = announced actions, every successful backend call was made for the entry whose turn it then was, the hand settles with chips conserved; a fatal runtime error of the process is a violation; non-trivial = a burst with conflicting operations (same seat / capacity edge / same turn); distinct = distinct workloads",
-        mandatory=dict(quick=["conflict_same_seat", "capacity_edge", "overlapping", "burst", "accepted_per_burst_1", "GOMAXPROCS2", "GOMAXPROCS16"]),
+        mandatory=dict(quick=['leave_via_batch_update', "conflict_same_seat", "capacity_edge", "overlapping", "burst", "accepted_per_burst_1", "GOMAXPROCS2", "GOMAXPROCS16"]),
         assumptions=ASSUME_COMMON + ["schedules are sampled (Go runtime scheduler), not enumerated", "UpdateTablePlayers batches mixing leaves and joins are left out of the concurrent workload (recorded C03 finding: not atomic even sequentially)", "PlayerJoin / PlayerRedeemChips / PlayerSettlementFinish take no lock and are outside the statement's list"],
     ),
     "C17": dict(
@@ -209,7 +217,7 @@ CHECKS = {
                  thorough=dict(shards=4, checks=1, timeout=1800)),
         ],
         rule="(1) real snapshots published at the decision points of generated hands (stacks from one chip, blinds above stacks, antes, facing all-ins, every request kind) are presented K=6 (quick) / 20 (thorough) times to fresh bots for every player at the table and a stranger through a recording Adapter; oracle: silent when not asked or stale, otherwise exactly one call for itself that the real hand engine accepts for the real state, allowed kind, legal amount; (2) tables played entirely by bots through the real adapter: no move rejected, hands settle (progress-based); non-trivial = a state where the asked stack is <= the minimum bet, faces an all-in or has only allin/fold, or a table hand with an all-in; distinct = distinct generated histories",
-        mandatory=dict(quick=["stack_le_minbet", "facing_allin", "chose_bet", "chose_raise", "chose_call", "chose_check", "chose_fold", "chose_allin", "chose_pass", "chose_pay", "stale_view", "not_asked", "bot_table"]),
+        mandatory=dict(quick=['stale_view_after_following_the_hand', "stack_le_minbet", "facing_allin", "chose_bet", "chose_raise", "chose_call", "chose_check", "chose_fold", "chose_allin", "chose_pass", "chose_pay", "stale_view", "not_asked", "bot_table"]),
         assumptions=["the bot's random source cannot be seeded: each state is sampled K times", "humanized mode (real thinking delays) is not exercised"],
     ),
     "C19": dict(
